@@ -159,6 +159,18 @@ CHECKS = {
         "vocabulary walk is concrete (flagged). Domain exclusions as C06.",
         design="4/C18",
     ),
+    "C11": dict(
+        text="Object types whose field names / aliases are snake_case, camelCase, keyword-like and $-prefixed, under class "
+        "aliasers (upper, prefix) with override=False exemptions, nested and flattened, and dynamic aliasers (identity, "
+        "to_camel_case, custom prefix). ext(f) = aliaser(class_aliaser(alias or name)) is computed with the user's own "
+        "functions. Symbolic: data whose keys range over ext and every confusable name (raw name, raw alias, class-aliased "
+        "only, dynamically aliased only) - deserialize must consume exactly ext keys and report the others as unexpected / "
+        "the field as missing at loc ext (C01 + C02 assertions); serialize of symbolic values must emit exactly ext keys "
+        "(C04 assertions). Validator-yielded aliases are covered by C10's aliased programs.",
+        note="properties / required / dependentRequired of both JSON schemas and GraphQL output field names are concrete "
+        "side conditions per program (no symbolic input; flagged in evidence). Name pool is concrete.",
+        design="4/C11",
+    ),
 }
 
 NOT_YET = "check not built yet at this commit (work in progress, see DESIGN.md section 4)"
